@@ -554,6 +554,7 @@ def run(ctx, out, tier):
         _detect_once(ctx, out, _dv, rule="C01.detect")
     else:
         out.inst("C01.detect", 0, 4)
+    shared.check_scan_state(ctx, out, "C01.scanstate")
     return meta()
 
 
